@@ -248,7 +248,38 @@ def gen_case_forall_disj(rng):
             [9, rng.sample(range(nobj), rng.randint(2, 3))]]
     sel = [['var', 1], ['var', 2]]
     rng.shuffle(sel)
+    if rng.random() < 0.4:
+        # a PROJECTION: one of the free variables is not selected - the passes for the different universal values still have to be
+        # intersected on both (a binding qualifies if SOME value of the unselected variable works for EVERY universal value)
+        sel = sel[:1]
     return dict(heap=heap, doms=doms, binders=[['var', 1], ['var', 2]], sel=sel, cond=['forall', 9, body], form='set_of')
+
+
+def gen_case_forall_projection(rng):
+    """for_all(u, or_(x.a >= u.a, y.a >= u.a)) selecting x only: x qualifies if SOME y works for EVERY u; for one universal value
+    several y make the right side true (rows that agree on the selected variable), for another value other ones do"""
+    nobj = rng.randint(5, 8)
+    heap = gen_heap(rng, nobj, True)
+    for o in heap:
+        o[0], o[1] = rng.randint(0, 3), rng.randint(0, 3)
+        o[8] = o[0] >= 2
+    fa = lambda k: ['map', ['f', F[rng.choice('ab')]], ['var', k]]
+    op = rng.choice(['>=', '>=', '>', '<=', '!='])
+    x, y = rng.sample([1, 2], 2)
+    disj = ['or', ['cmp', op, fa(x), fa(9)], ['cmp', op, fa(y), fa(9)], rng.choice(['fn', 'op'])]
+    if rng.random() < 0.25:
+        disj = ['and', ['cmp', rng.choice(['>=', '!=']), fa(x), ['lit', rng.randint(0, 1)]], disj, 'fn']
+    doms = [[x, rng.sample(range(nobj), rng.randint(1, 3))], [y, rng.sample(range(nobj), rng.randint(3, 4))],
+            [9, rng.sample(range(nobj), rng.randint(2, 3))]]
+    if rng.random() < 0.6:
+        # the FIRST y that satisfies the right side differs between the universal values although a later one satisfies it for all
+        doms[1][1].sort(key=lambda i: (heap[i][0], heap[i][1]))
+        for i in doms[0][1]:
+            if i not in doms[1][1] and i not in doms[2][1]:
+                heap[i][0] = heap[i][1] = 0
+    doms.sort()
+    return dict(heap=heap, doms=doms, binders=[['var', 1], ['var', 2]], sel=[['var', x]], cond=['forall', 9, disj],
+                form=rng.choice(['entity', 'set_of']))
 
 
 def gen_case_forall_expr(rng, falsy_values=False):
@@ -325,6 +356,8 @@ def gen_case_forall(rng, tier):
         return gen_case_forall_eq(rng)
     if rng.random() < 0.2:
         return gen_case_forall_disj(rng)
+    if rng.random() < 0.15:
+        return gen_case_forall_projection(rng)
     if rng.random() < 0.1:
         return gen_case_forall_expr(rng, falsy_values=rng.random() < 0.4)
     nfree = rng.choice([1, 1, 2])
@@ -350,6 +383,8 @@ def gen_case_forall(rng, tier):
         cond = ['and', other, cond, 'fn'] if rng.random() < 0.5 else ['and', cond, other, 'fn']
     sel = [['var', k] for k in range(1, nfree + 1)]
     rng.shuffle(sel)
+    if nfree == 2 and rng.random() < 0.3:
+        sel = sel[:1]                                         # a projection (see gen_case_forall_disj)
     return dict(heap=heap, doms=doms, binders=[['var', k] for k in range(1, nfree + 1)], sel=sel, cond=cond,
                 form='entity' if len(sel) == 1 and rng.random() < 0.5 else 'set_of')
 
